@@ -4,14 +4,17 @@ import KoordVerif.Model.C13
 Driver for C13.  All tokens after the op kind are integers.
 
   pod <slot> <POD>             slot 0 = the pod under admission, 1 = the old pod of an UPDATE
-  profile <name> <matched> <skipRes> <hasProb> <prob> <qos> <pclabel> <hasPrio> <prio> <hasSub> <sub>
+  profile <name> <matched> <skipRes> <hasProb> <prob> LSTR(qosClass) <hasPrio> <prio> <hasSub> <sub>
+          <nLabels> (<key> LSTR)* <nKeyMap> (<old> <new>)* <nSuffix> (<key> LSTR)*
+          <hasPatch> <nPatchLabels> (<key> LSTR)* <hasPatchPrio> <patchPrio> <nPatchRes> (<ctr> <isLimit> <res> <nano>)*
   validate <gateSkipPriority> <op>        -> `verdict <0|1>`
   mutate <create> <gateSkipRes> <rand>    -> observation block of slot 0 after
                                              clusterColocationProfileMutatingPod + mutateByExtendedResources;
                                              slot 0 := result (a second `mutate` re-admits it)
-  POD  = <qos> <pclabel> <hasPrio> <prio> <hasSub> <sub> <statusQoS> <ANNOT> <nInit> <nCtr> <hasOv> CTR* [RL]
-  qos: -1 absent 0 unknown 1 LSE 2 LSR 3 LS 4 BE 5 SYSTEM;  pclabel: -1 absent 0 unknown 1 prod 2 mid 3 batch 4 free
-  CTR  = <name> RL(requests) RL(limits);   RL = <n> (<res> <nano>)*   res: 0 cpu 1 memory 2 batch-cpu 3 batch-memory 4 mid-cpu 5 mid-memory 6 other
+  POD  = LSTR(qos label) LSTR(priority-class label) LSTR(c13/src label) <hasPrio> <prio> <hasSub> <sub> <statusQoS>
+         <ANNOT> <nInit> <nCtr> <hasOv> <hasPodRes> CTR* [RL(overhead)] [RL(pod requests) RL(pod limits)]
+  LSTR = -1 (absent) | <n> <byte>*        key: 0 qos 1 priority-class 2 c13/src
+  CTR  = <name> <sidecar> RL(requests) RL(limits);   RL = <n> (<res> <nano>)*   res: 0 cpu 1 memory 2 batch-cpu 3 batch-memory 4 mid-cpu 5 mid-memory 6 other
   ANNOT = 0 | 1 | 2 <n> (<name> EXT(requests) EXT(limits))*;   EXT = <hasCpu> <cpu> <hasMem> <mem>
 -/
 namespace KoordVerif.C13
@@ -46,20 +49,42 @@ def resOfCode (c : Int) : Option Res :=
 def Res.code : Res → Int
   | .cpu => 0 | .memory => 1 | .batchCPU => 2 | .batchMemory => 3 | .midCPU => 4 | .midMemory => 5 | .other => 6
 
-def qosOfCode (c : Int) : Option (Option QoS) :=
-  if c = -1 then some none else if c = 0 then some (some .none) else if c = 1 then some (some .lse)
-  else if c = 2 then some (some .lsr) else if c = 3 then some (some .ls) else if c = 4 then some (some .be)
-  else if c = 5 then some (some .system) else none
+def pLStr : Parser (Option LStr) := fun ts =>
+  match ts with
+  | n :: xs =>
+    if n = -1 then some (none, xs) else if n < 0 then none else
+    match pRep pInt n.toNat xs with
+    | some (bs, rest) => if bs.all (· ≥ 0) then some (some (bs.map Int.toNat), rest) else none
+    | none => none
+  | [] => none
 
-def qosCode : Option QoS → Int
-  | none => -1 | some .none => 0 | some .lse => 1 | some .lsr => 2 | some .ls => 3 | some .be => 4 | some .system => 5
+def keyOfCode (c : Int) : Option LKey :=
+  if c = 0 then some .qos else if c = 1 then some .pc else if c = 2 then some .src else none
 
-def pcOfCode (c : Int) : Option (Option PC) :=
-  if c = -1 then some none else if c = 0 then some (some .none) else if c = 1 then some (some .prod)
-  else if c = 2 then some (some .mid) else if c = 3 then some (some .batch) else if c = 4 then some (some .free) else none
+def pKey : Parser LKey := fun ts =>
+  match ts with
+  | c :: xs => (keyOfCode c).map (fun k => (k, xs))
+  | [] => none
 
-def pcCode : Option PC → Int
-  | none => -1 | some .none => 0 | some .prod => 1 | some .mid => 2 | some .batch => 3 | some .free => 4
+def pKeyStr : Parser (LKey × LStr) := fun ts =>
+  match pKey ts with
+  | some (k, r1) => match pLStr r1 with
+    | some (some v, r2) => some ((k, v), r2)
+    | _ => none
+  | none => none
+
+def pKeyKey : Parser (LKey × LKey) := fun ts =>
+  match pKey ts with
+  | some (a, r1) => match pKey r1 with
+    | some (b, r2) => some ((a, b), r2)
+    | none => none
+  | none => none
+
+/-- `<n> item*` -/
+def pList {α} (p : Parser α) : Parser (List α) := fun ts =>
+  match ts with
+  | n :: xs => if n < 0 then none else pRep p n.toNat xs
+  | [] => none
 
 def pPair : Parser (Res × Int) := fun ts =>
   match ts with
@@ -79,14 +104,23 @@ def pRL : Parser RL := fun ts =>
 
 def pCtr : Parser Ctr := fun ts =>
   match ts with
-  | n :: xs =>
+  | n :: sc :: xs =>
     if n < 0 then none else
     match pRL xs with
     | some (rq, r1) => match pRL r1 with
-      | some (lm, r2) => some ({ name := n.toNat, req := rq, lim := lm }, r2)
+      | some (lm, r2) => some ({ name := n.toNat, req := rq, lim := lm, sidecar := sc ≠ 0 }, r2)
       | none => none
     | none => none
-  | [] => none
+  | _ => none
+
+def pResPatch : Parser ResPatch := fun ts =>
+  match ts with
+  | c :: il :: r :: q :: xs =>
+    if c < 0 then none else
+    match resOfCode r with
+    | some res => some ({ ctr := c.toNat, isLimit := il ≠ 0, res := res, q := q }, xs)
+    | none => none
+  | _ => none
 
 def pExt : Parser ExtRL := fun ts =>
   match pOpt ts with
@@ -118,26 +152,73 @@ def pAnnot : Parser Annot := fun ts =>
   | _ => none
 
 def pPod : Parser Pod := fun ts =>
-  match ts with
-  | q :: pl :: hp :: pv :: hs :: sv :: st :: xs =>
-    match qosOfCode q, pcOfCode pl, pAnnot xs with
-    | some ql, some pll, some (an, ni :: nc :: ho :: r1) =>
+  match pLStr ts with
+  | none => none
+  | some (ql, t1) =>
+  match pLStr t1 with
+  | none => none
+  | some (pl, t2) =>
+  match pLStr t2 with
+  | none => none
+  | some (sl, t3) =>
+  match t3 with
+  | hp :: pv :: hs :: sv :: st :: xs =>
+    match pAnnot xs with
+    | some (an, ni :: nc :: ho :: hpl :: r1) =>
       if ni < 0 ∨ nc < 0 ∨ st < 0 then none else
       match pRep pCtr ni.toNat r1 with
       | some (is, r2) => match pRep pCtr nc.toNat r2 with
         | some (cs, r3) =>
-          let mk (ov : Option RL) : Pod :=
-            { qosLabel := ql, prioLabel := pll, priority := if hp ≠ 0 then some pv else none,
+          let lbl : Labels := fun k => match k with | .qos => ql | .pc => pl | .src => sl
+          let mk (ov : Option RL) (pr : Option (RL × RL)) : Pod :=
+            { labels := lbl, priority := if hp ≠ 0 then some pv else none,
               subPrio := if hs ≠ 0 then some sv else none, statusQoS := st.toNat,
-              inits := is, ctrs := cs, overhead := ov, annot := an }
-          if ho ≠ 0 then
-            match pRL r3 with
-            | some (ov, r4) => some (mk (some ov), r4)
-            | none => none
-          else some (mk none, r3)
+              inits := is, ctrs := cs, overhead := ov, annot := an, podRes := pr }
+          let pOv : Parser (Option RL) := fun ts =>
+            if ho ≠ 0 then (match pRL ts with | some (ov, r) => some (some ov, r) | none => none) else some (none, ts)
+          match pOv r3 with
+          | none => none
+          | some (ov, r4) =>
+            if hpl ≠ 0 then
+              match pRL r4 with
+              | some (rq, r5) => match pRL r5 with
+                | some (lm, r6) => some (mk ov (some (rq, lm)), r6)
+                | none => none
+              | none => none
+            else some (mk ov none, r4)
         | none => none
       | none => none
-    | _, _, _ => none
+    | _ => none
+  | _ => none
+
+def pProfile : Parser Profile := fun ts =>
+  match ts with
+  | name :: m :: sr :: hpb :: pb :: t1 =>
+    if name < 0 then none else
+    match pLStr t1 with
+    | some (q, hp :: pv :: hs :: sv :: t2) =>
+      match pList pKeyStr t2 with
+      | none => none
+      | some (lbls, t3) =>
+      match pList pKeyKey t3 with
+      | none => none
+      | some (km, t4) =>
+      match pList pKeyStr t4 with
+      | none => none
+      | some (sfx, []) => none
+      | some (sfx, hpa :: t5) =>
+      match pList pKeyStr t5 with
+      | none => none
+      | some (pls, hpp :: pp :: t6) =>
+        match pList pResPatch t6 with
+        | none => none
+        | some (prs, t7) =>
+          some ({ name := name.toNat, matched := m ≠ 0, skipRes := sr ≠ 0, prob := if hpb ≠ 0 then some pb else none,
+                  qos := q, priority := if hp ≠ 0 then some pv else none, subPrio := if hs ≠ 0 then some sv else none,
+                  labels := lbls, keyMap := km, suffixes := sfx, hasPatch := hpa ≠ 0, patchLabels := pls,
+                  patchPriority := if hpp ≠ 0 then some pp else none, patchRes := prs }, t7)
+      | _ => none
+    | _ => none
   | _ => none
 
 def showRL (l : RL) : String :=
@@ -155,13 +236,19 @@ def showAnnot : Annot → String
   | .malformed => "ann 1"
   | .spec es => " ".intercalate ("ann 2" :: toString es.length :: es.map (fun e => s!"{e.name} {showExt e.req} {showExt e.lim}"))
 
+def showLStr : Option LStr → String
+  | none => "-1"
+  | some bs => " ".intercalate (toString bs.length :: bs.map toString)
+
 def showPod (p : Pod) : List String :=
   let pv := showOpt (Pod.priority p)
   let sv := showOpt (Pod.subPrio p)
-  [s!"meta {qosCode p.qosLabel} {pcCode p.prioLabel} {pv} {sv}"] ++
+  [s!"meta {showLStr (p.labels .qos)} {showLStr (p.labels .pc)} {showLStr (p.labels .src)} {pv} {sv}"] ++
   p.inits.map (fun c => s!"c 0 {c.name} {showRL c.req} {showRL c.lim}") ++
   p.ctrs.map (fun c => s!"c 1 {c.name} {showRL c.req} {showRL c.lim}") ++
-  [match p.overhead with | some o => s!"ov 1 {showRL o}" | none => "ov 0", showAnnot p.annot]
+  [match p.overhead with | some o => s!"ov 1 {showRL o}" | none => "ov 0",
+   match p.podRes with | some (rq, lm) => s!"pl 1 {showRL rq} {showRL lm}" | none => "pl 0",
+   showAnnot p.annot]
 
 structure St where
   cur : Option Pod := none
@@ -181,16 +268,11 @@ def stepLine (st : St) (line : String) : St × List String :=
     | _ => (st, ["bad-op"])
   | "profile" :: rest =>
     match ints? rest with
-    | some [name, m, sr, hpb, pb, q, pl, hp, pv, hs, sv] =>
-      match qosOfCode q, pcOfCode pl with
-      | some ql, some pll =>
-        if name < 0 then (st, ["bad-op"]) else
-        let pr : Profile := Profile.mk name.toNat (m ≠ 0) (sr ≠ 0)
-          (if hpb ≠ 0 then some pb else none) ql pll
-          (if hp ≠ 0 then some pv else none) (if hs ≠ 0 then some sv else none)
-        ({ st with profiles := st.profiles ++ [pr] }, [])
-      | _, _ => (st, ["bad-op"])
-    | _ => (st, ["bad-op"])
+    | some ts =>
+      match pProfile ts with
+      | some (pr, []) => ({ st with profiles := st.profiles ++ [pr] }, [])
+      | _ => (st, ["bad-op"])
+    | none => (st, ["bad-op"])
   | "validate" :: rest =>
     match ints? rest, st.cur with
     | some [gate, op], some new =>
